@@ -1241,6 +1241,20 @@ func driveC04(c *h.Ctx) error {
 			c.Sample(map[string]any{"part": "a", "item": it})
 		}
 	}
+	// (b) alternative forms, wrong shapes, truncations
+	docs := append(c04AltDocs(c, g), c04ShapeDocs(g)...)
+	for i, d := range docs {
+		c04CaseB(c, t, d, true)
+		if i%503 == 0 {
+			c.Sample(map[string]any{"part": "b", "doc": d})
+		}
+	}
+	// (b') metamorphic: what a structure's callback leaves unread does not influence what is read
+	nm := c.Pick(300, 4000)
+	for i := 0; i < nm; i++ {
+		g.r = c.Rng.Fork(uint64(500000 + i))
+		c04CaseSkip(c, g, g.tree(4, i%2 == 0), i)
+	}
 	return c04WriteCases(c, g, t)
 }
 
@@ -1277,8 +1291,424 @@ func c04Replay(c *h.Ctx, g *c04Gen, t *c04Tables) error {
 			return err
 		}
 		c04CaseA(c, t, &it, true)
+	case "b":
+		b, _ := json.Marshal(m["doc"])
+		var d c04Doc
+		if err := json.Unmarshal(b, &d); err != nil {
+			return err
+		}
+		c04CaseB(c, t, d, true)
+	case "skip":
+		b, _ := json.Marshal(m["item"])
+		var it c04Item
+		if err := json.Unmarshal(b, &it); err != nil {
+			return err
+		}
+		g.r = h.NewRand(uint64(m["rng"].(float64)))
+		c04CaseSkip(c, g, &it, -1)
 	default:
 		return fmt.Errorf("unknown case part %v", m["part"])
 	}
 	return c04WriteCases(c, g, t)
+}
+
+// ------------------------------------------------------------------ part (b): alternative forms and malformed documents
+
+type c04Doc struct {
+	Format string   `json:"format"`
+	Doc    string   `json:"doc_hex"`
+	Script *c04Item `json:"script,omitempty"` // nil: Unmarshal into ttlv.Value
+	Note   string   `json:"note"`
+}
+
+func c04MkDoc(format string, doc string, script *c04Item, note string) c04Doc {
+	return c04Doc{Format: format, Doc: hex.EncodeToString([]byte(doc)), Script: script, Note: note}
+}
+
+func c04PanicClass(msg string) string {
+	switch {
+	case strings.Contains(msg, "Invalid type"):
+		return "invalid-type-name"
+	case strings.Contains(msg, "interface conversion"):
+		return "unchecked-type-assertion"
+	case strings.Contains(msg, "index out of range"), strings.Contains(msg, "slice bounds"):
+		return "index-out-of-range"
+	case strings.Contains(msg, "nil pointer"):
+		return "nil-dereference"
+	case strings.Contains(msg, "interval cannot be negative"):
+		return "negative-interval-reencoded"
+	}
+	return "other"
+}
+
+func c04CaseB(c *h.Ctx, t *c04Tables, d c04Doc, model bool) c04Out {
+	doc, _ := hex.DecodeString(d.Doc)
+	var o c04Out
+	if d.Script == nil {
+		o = c04UnmarshalDoc(d.Format, doc)
+	} else {
+		o = c04RereadDoc(d.Format, doc, d.Script)
+	}
+	key := d.Format + "|" + d.Doc
+	if d.Script != nil {
+		key += "|" + d.Script.coq()
+	}
+	c.Eval(key, true)
+	c.Count("b:" + d.Format + ":" + d.Note)
+	c.Count("b:outcome:" + o.Class)
+	cj := map[string]any{"part": "b", "doc": d, "doc_text": string(c04Trunc(doc)), "observed": o.String()}
+	if o.Class == "panic" {
+		c.Fail("C04/"+d.Format+"/reader-panic:"+c04PanicClass(o.Msg), fmt.Sprintf("%s reader panicked (%s) on %q", d.Format, o.Msg, c04Trunc(doc)), cj)
+	}
+	c04AltOracle(c, d, doc, o, cj)
+	script := "None"
+	if d.Script != nil {
+		script = "(Some " + d.Script.coq() + ")"
+	}
+	if d.Format == "xml" {
+		roots, cut := c04ParseXML(doc)
+		if model {
+			t.xr = append(t.xr, fmt.Sprintf("(%s, %s, %s, %s)", c04XList(roots), h.Bool(cut), script, o.coq()))
+			c.IndexCase("mism_xml_read", len(t.xr)-1, cj)
+		}
+	} else {
+		jt, err := c04ParseJSON(doc)
+		if err != nil {
+			if o.Class == "ok" {
+				c.Fail("C04/json/accepts-invalid-json", fmt.Sprintf("JSON reader accepts %q which encoding/json rejects (%v)", c04Trunc(doc), err), cj)
+			}
+			return o
+		}
+		if model {
+			t.jr = append(t.jr, fmt.Sprintf("(%s, %s, %s)", jt.coq(), script, o.coq()))
+			c.IndexCase("mism_json_read", len(t.jr)-1, cj)
+		}
+	}
+	return o
+}
+
+func c04XMLEsc(s string) string {
+	var sb strings.Builder
+	for i := 0; i < len(s); i++ {
+		ch := s[i]
+		switch {
+		case ch == '&':
+			sb.WriteString("&amp;")
+		case ch == '<':
+			sb.WriteString("&lt;")
+		case ch == '"':
+			sb.WriteString("&quot;")
+		case ch == '\t' || ch == '\n' || ch == '\r':
+			fmt.Fprintf(&sb, "&#x%X;", ch)
+		default:
+			sb.WriteByte(ch)
+		}
+	}
+	return sb.String()
+}
+
+func c04JSONStr(s string) string {
+	b, _ := json.Marshal(s)
+	return string(b)
+}
+
+var c04TypeNames = map[string]string{"struct": "Structure", "int": "Integer", "long": "LongInteger", "big": "BigInteger", "enum": "Enumeration",
+	"bool": "Boolean", "text": "TextString", "bytes": "ByteString", "date": "DateTime", "intv": "Interval", "mask": "Integer"}
+
+var c04NumStrs = []string{"0", "-0", "+5", "5", "-5", "007", "2147483647", "2147483648", "-2147483648", "-2147483649", "4294967295", "4294967296",
+	"4503599627370496", "9223372036854775807", "9223372036854775808", "-9223372036854775808", "-9223372036854775809", "18446744073709551615", "18446744073709551616",
+	"99999999999999999999999", "0x0", "0x00000000", "0xFF", "0xff", "0xFf", "0x7FFFFFFF", "0x80000000", "0xFFFFFFFF", "0x100000000", "0x7FFFFFFFFFFFFFFF",
+	"0x8000000000000000", "0xFFFFFFFFFFFFFFFF", "0x10000000000000000", "0x", "0X10", "0x-1", "0x+1", "0x 1", "0xg", "1e3", "1.0", "1.5", " 1", "1 ", "", "-", "+", "--1", "+-1",
+	"1_000", "0x1_0", "٣", "0b101", "0o17", "0x0000000000000000000000000001", "１", "x", "0x0000003b9aca00", "253402300799", "253402300800", "0x3afff4417f", "0x3afff44180"}
+
+var c04JSONLits = []string{"0", "-0", "5", "-5", "2147483647", "2147483648", "-2147483648", "-2147483649", "4294967295", "4294967296", "4503599627370496",
+	"9223372036854775807", "9223372036854775808", "-9223372036854775808", "-9223372036854775809", "1e3", "1E3", "1.0", "1.5", "0.0", "-1.0e0", "123456789012345678901234567890",
+	"true", "false", "null", "[]", "[1]", "{}", `{"a":1}`, `[{"tag":"Name","type":"TextString","value":"x"}]`}
+
+func c04KindStrs(g *c04Gen, kind string) []string {
+	switch kind {
+	case "big":
+		return []string{"00", "FF", "ff", "7F", "80", "0080", "FF80", "ABC", "GG", "0x00", "0x", "0xFF", "0xff", "0x0080", "0xFFFFFFFFFFFFFF80", "0x0", "0xABC", "0xGG", "00 ", "0x00000000000000000000000000000001", "0xffffffffffffffffffffffffffffffff", "0x8000000000000000"}
+	case "enum":
+		return []string{"AES", "aes", "DES", "3DES", "Bogus", "SymmetricKey", "0x00000003", "0x3", "3", "0xffffffff", "-1", " AES", "AES "}
+	case "bool":
+		return []string{"true", "false", "1", "0", "t", "f", "T", "F", "TRUE", "FALSE", "True", "False", "yes", "tRuE", "2", "0x1", "0x0", "-1"}
+	case "date":
+		return []string{"2013-06-26T08:47:03Z", "2013-06-26T08:47:03+02:00", "2013-06-26T08:47:03-00:30", "2013-06-26T08:47:03.5Z", "2013-06-26T08:47:03,25+01:00",
+			"2013-06-26T08:47:03.123456789012Z", "2013-06-26t08:47:03Z", "2013-06-26T08:47:03z", "2013-13-26T08:47:03Z", "2013-00-26T08:47:03Z", "2013-02-29T00:00:00Z", "2012-02-29T00:00:00Z",
+			"2100-02-29T00:00:00Z", "2000-02-29T23:59:59Z", "2013-04-31T00:00:00Z", "2013-06-00T00:00:00Z", "2013-06-26T24:00:00Z", "2013-06-26T23:60:00Z", "2013-06-26T23:59:60Z",
+			"0000-01-01T00:00:00Z", "0001-01-01T00:00:00Z", "9999-12-31T23:59:59Z", "10000-01-01T00:00:00Z", "-0001-01-01T00:00:00Z", "2013-06-26T08:47:03", "2013-06-26T08:47:03Zx",
+			"2013-06-26 08:47:03Z", "2013-06-26T08:47:03+0200", "2013-06-26T08:47:03+24:00", "2013-06-26T08:47:03+25:00", "2013-06-26T08:47:03-23:60", "2013-06-26T08:47:03+23:61",
+			"2013-06-26", "1970-01-01T00:00:00Z", "1969-12-31T23:59:59Z", "0001-01-01T00:00:00+00:01", "9999-12-31T23:59:59-00:01", "2013-6-26T08:47:03Z", "2013-06-26T08:47:03.Z",
+			"0x0", "0x10", "0x3AFFF4417F", "0x3AFFF44180", "0xFFFFFFFFFFFFFFFF", "0x8000000000000000", "0x7FFFFFFFFFFFFFFF", "0xzz", "0x"}
+	case "mask":
+		l := []string{"Sign", "Sign Verify", "Sign  Verify", " Sign", "Sign ", "Sign\tVerify", "Sign\nVerify", "0x00000001", "0x1", "1", "3", "-1", "-2147483648", "2147483648", "Sign 0x00000004",
+			"Sign|Verify", "Sign | Verify", "Sign|0x00000004|8", "Bogus", "sign", "OnLineStorage", "Sign\u00a0Verify", "Sign\u2003Verify", "Sign\u0085Verify", "\u3000Sign", "Sign\u200bVerify", "Sign\u2028Verify\u1680Encrypt",
+			"0x7FFFFFFF", "Sign Sign", "+4", "0x00000001 0x00000002", "1 2 4", "Sign,Verify"}
+		if g.masksOK {
+			l = append(l, "0x80000000", "0xFFFFFFFF", "Sign 0x80000000", "|", "Sign|", "|Sign", "Sign||Verify", " ", " | ")
+		}
+		return l
+	case "text":
+		return []string{"hello", "<&>\"'", "0x41", "\x01", "é", "\U0001f600"}
+	case "bytes":
+		return []string{"00", "0a", "0A", "0", "zz", "00 11", "DEADBEEF", "deadbeef", "0x00", "DEADBEE"}
+	}
+	return nil
+}
+
+// c04AltDocs: one element per document, every kind x tag form x value literal.
+func c04AltDocs(c *h.Ctx, g *c04Gen) []c04Doc {
+	var docs []c04Doc
+	type tf struct {
+		xmlName, xmlAttr, jsonTag string
+		tag                       int
+	}
+	forms := map[string][]tf{}
+	for _, k := range c04Kinds {
+		tag := map[string]int{"int": kmip.TagBatchCount, "long": kmip.TagUsageLimitsTotal, "big": kmip.TagP, "enum": kmip.TagCryptographicAlgorithm, "bool": kmip.TagSensitive,
+			"text": kmip.TagName, "bytes": kmip.TagKeyMaterial, "date": kmip.TagActivationDate, "intv": kmip.TagLeaseTime, "mask": kmip.TagCryptographicUsageMask}[k]
+		name := g.reg.TagNames[tag]
+		forms[k] = []tf{{name, "", name, tag}, {"TTLV", fmt.Sprintf(` tag="0x%06X"`, tag), fmt.Sprintf("0x%06X", tag), tag}, {"TTLV", ` tag="0x54ab01"`, "0x54ab01", 0x54ab01}}
+	}
+	i := 0
+	for _, k := range c04Kinds {
+		strs := append(append([]string{}, c04NumStrs...), c04KindStrs(g, k)...)
+		for fi, f := range forms[k] {
+			script := &c04Item{K: k, Tag: f.tag}
+			for _, s := range strs {
+				i++
+				if fi > 0 && (i+int(c.Seed))%5 != 0 && c.Quick() {
+					continue
+				}
+				if k == "mask" && !g.masksOK && (strings.Contains(s, "0x8") || strings.Contains(s, "0xF") || strings.Contains(s, "0x1000") || s == "" || strings.Contains(s, "0x-") || strings.Contains(s, "0x+")) {
+					continue // inputs on which the unrepaired Bitmask readers (ParseInt 16/32, empty JSON part) differ from the repaired ones
+				}
+				x := fmt.Sprintf(`<%s%s type="%s" value="%s"/>`, f.xmlName, f.xmlAttr, c04TypeNames[k], c04XMLEsc(s))
+				j := fmt.Sprintf(`{"tag": %s, "type": %s, "value": %s}`, c04JSONStr(f.jsonTag), c04JSONStr(c04TypeNames[k]), c04JSONStr(s))
+				docs = append(docs, c04MkDoc("xml", x, script, "alt:"+k), c04MkDoc("json", j, script, "alt:"+k))
+				if k != "mask" {
+					docs = append(docs, c04MkDoc("xml", x, nil, "alt-value:"+k), c04MkDoc("json", j, nil, "alt-value:"+k))
+				}
+			}
+			if fi > 0 && c.Quick() {
+				continue
+			}
+			for _, lit := range c04JSONLits {
+				j := fmt.Sprintf(`{"tag": %s, "type": %s, "value": %s}`, c04JSONStr(f.jsonTag), c04JSONStr(c04TypeNames[k]), lit)
+				docs = append(docs, c04MkDoc("json", j, script, "alt-lit:"+k), c04MkDoc("json", j, nil, "alt-lit-value:"+k))
+			}
+		}
+	}
+	return docs
+}
+
+// c04ShapeDocs: documents whose shape (not a scalar's spelling) is unusual or wrong.
+func c04ShapeDocs(g *c04Gen) []c04Doc {
+	var docs []c04Doc
+	iName := &c04Item{K: "text", Tag: kmip.TagName}
+	iCount := &c04Item{K: "int", Tag: kmip.TagBatchCount}
+	sAttr := func(kids ...*c04Item) *c04Item { return &c04Item{K: "struct", Tag: kmip.TagAttribute, Kids: kids} }
+	scripts := []*c04Item{nil, iName, iCount, sAttr(), sAttr(iName), sAttr(iName, iCount), sAttr(iCount),
+		{K: "struct", Tag: kmip.TagTemplateAttribute, Kids: []*c04Item{sAttr(iName), iCount}},
+		{K: "struct", Tag: kmip.TagTemplateAttribute, Kids: []*c04Item{sAttr(), sAttr(iName)}},
+		{K: "struct", Tag: 0}, {K: "int", Tag: 0}}
+	xmls := []string{
+		``, ` `, `x`, `<!-- c -->`, `<?xml version="1.0" encoding="UTF-8"?>`, `<?xml version="1.0" encoding="ISO-8859-1"?><Name type="TextString" value="x"/>`,
+		`<?xml version="1.0" encoding="UTF-8"?>` + "\n" + `<Name type="TextString" value="x"/>` + "\n",
+		"\xef\xbb\xbf" + `<Name type="TextString" value="x"/>`,
+		`<Name type="TextString" value="x"/>`, `<Name type="TextString" value="x"></Name>`, `<Name type='TextString' value='x'/>`, `<Name value="x" type="TextString"/>`,
+		`<Name type="TextString" value="x" value="y"/>`, `<Name type="TextString" type="Integer" value="1"/>`, `<Name type="TextString"/>`, `<Name value="x"/>`, `<Name/>`,
+		`<Name type="" value="x"/>`, `<Name type="Foo" value="x"/>`, `<Name type="textstring" value="x"/>`, `<Name type="Structure" value="x"/>`, `<Name type="Unknown(0B)" value="x"/>`,
+		`<Name type="TextString" value="x">text</Name>`, `<Name type="TextString" value="x"><BatchCount type="Integer" value="1"/></Name>`,
+		`<Name type="TextString" value="x"/><BatchCount type="Integer" value="1"/>`, `<Name type="TextString" value="x"/>trailing`, `<Name type="TextString" value="x"/><`,
+		`<Name type="TextString" value="x"/><!-- c --><?pi x?>`,
+		`<a:Name xmlns:a="urn:x" type="TextString" value="x"/>`, `<Name xmlns="urn:x" type="TextString" value="x"/>`, `<Name a:type="TextString" xmlns:a="urn:x" a:value="x"/>`,
+		`<Bogus type="TextString" value="x"/>`, `<TTLV type="TextString" value="x"/>`, `<TTLV tag="" type="TextString" value="x"/>`, `<TTLV tag="Name" type="TextString" value="x"/>`,
+		`<TTLV tag="0x420053" type="TextString" value="x"/>`, `<TTLV tag="0x42005g" type="TextString" value="x"/>`, `<TTLV tag="0x" type="TextString" value="x"/>`,
+		`<TTLV tag="0X420053" type="TextString" value="x"/>`, `<TTLV tag="420053" type="TextString" value="x"/>`, `<TTLV tag="0x-1" type="TextString" value="x"/>`,
+		`<TTLV tag="0x7FFFFFFF" type="TextString" value="x"/>`, `<TTLV tag="0x80000000" type="TextString" value="x"/>`, `<TTLV tag="0x000000" type="Integer" value="1"/>`,
+		`<TTLV tag="0x0" type="Structure"/>`, `<ttlv tag="0x420053" type="TextString" value="x"/>`, `<Name tag="0x42000D" type="TextString" value="x"/>`,
+		`<Attribute/>`, `<Attribute></Attribute>`, `<Attribute> </Attribute>`, `<Attribute><!-- c --></Attribute>`, `<Attribute>text</Attribute>`, `<Attribute><![CDATA[<x/>]]></Attribute>`,
+		`<Attribute type="Structure"><Name type="TextString" value="x"/></Attribute>`,
+		`<Attribute><Name type="TextString" value="x"/></Attribute>`, `<Attribute> <Name type="TextString" value="x"/> <BatchCount type="Integer" value="7"/> </Attribute>`,
+		`<Attribute><BatchCount type="Integer" value="7"/><Name type="TextString" value="x"/></Attribute>`,
+		`<Attribute><Name type="TextString" value="x"/><Bogus type="Integer" value="1"/><BatchCount type="Integer" value="7"/></Attribute>`,
+		`<Attribute><Bogus type="Integer" value="1"/><Name type="TextString" value="x"/></Attribute>`,
+		`<Attribute><Name type="TextString" value="x"/><BatchCount type="Foo" value="7"/></Attribute>`,
+		`<Attribute><Name type="TextString" value="x"/><BatchCount type="Integer" value="seven"/></Attribute>`,
+		`<Attribute><Name type="TextString" value="x"/><Attribute><BatchCount type="Integer" value="7"/></Attribute><BatchCount type="Integer" value="8"/></Attribute>`,
+		`<TemplateAttribute><Attribute><Name type="TextString" value="x"/></Attribute><BatchCount type="Integer" value="8"/></TemplateAttribute>`,
+		`<TemplateAttribute><Attribute><Name type="TextString" value="x"/><Attribute><BatchCount type="Integer" value="7"/></Attribute></Attribute><BatchCount type="Integer" value="8"/></TemplateAttribute>`,
+		`<TemplateAttribute><Attribute><Bogus><Name type="TextString" value="x"/></Bogus><Name type="TextString" value="y"/></Attribute><BatchCount type="Integer" value="8"/></TemplateAttribute>`,
+		`<TemplateAttribute><Attribute><Name type="TextString" value="x"/><Bogus><BatchCount type="Integer" value="7"/></Bogus><BatchCount type="Integer" value="9"/></Attribute><BatchCount type="Integer" value="8"/></TemplateAttribute>`,
+		`<TemplateAttribute><Attribute/><Attribute><Name type="TextString" value="x"/></Attribute></TemplateAttribute>`,
+		`<TemplateAttribute><Attribute><Attribute><Attribute/></Attribute></Attribute><Attribute><Name type="TextString" value="x"/></Attribute></TemplateAttribute>`,
+		`<Attribute><Name type="TextString" value="x"/></Attribut>`, `<Attribute><Name type="TextString" value="x"></Attribute>`, `<Attribute><Name type="TextString" value=x/></Attribute>`,
+		`<Attribute><Name type="TextString" value="a<b"/></Attribute>`, `<Attribute><Name type="TextString" value="&#x1;"/></Attribute>`, `<Attribute><Name type="TextString" value="&foo;"/></Attribute>`,
+		`<Attribute><Name type="TextString" value="&#x41;&#65;&lt;&gt;&amp;&apos;&quot;"/></Attribute>`, `<Attribute><Name type="TextString" value="a` + "\n" + `b` + "\t" + `c"/></Attribute>`,
+		`<!DOCTYPE x><Attribute/>`, `<Attribute><Name type="TextString" value="x"/></Attribute><Attribute>`,
+	}
+	for _, x := range xmls {
+		for _, s := range scripts {
+			docs = append(docs, c04MkDoc("xml", x, s, "shape"))
+		}
+	}
+	// every prefix of two small documents
+	for _, x := range []string{`<Attribute><Name type="TextString" value="x"/><Attribute><BatchCount type="Integer" value="7"/></Attribute></Attribute>`,
+		`<?xml version="1.0"?><TTLV tag="0x420008"><Name type="TextString" value="&lt;"></Name><!-- c --></TTLV>`} {
+		for n := 0; n < len(x); n++ {
+			docs = append(docs, c04MkDoc("xml", x[:n], nil, "truncated"), c04MkDoc("xml", x[:n], sAttr(iName), "truncated"))
+		}
+	}
+	nm := `{"tag":"Name","type":"TextString","value":"x"}`
+	bc := `{"tag":"BatchCount","type":"Integer","value":7}`
+	jsons := []string{
+		``, ` `, `null`, `true`, `1`, `"x"`, `[]`, `[1]`, `{}`, `[` + nm + `]`, nm, ` ` + nm + ` `, nm + ` trailing`, nm + nm,
+		`{"tag":"Name"}`, `{"tag":"Name","type":"TextString"}`, `{"tag":"Name","value":"x"}`, `{"type":"TextString","value":"x"}`, `{"value":"x"}`,
+		`{"tag":"Name","type":"TextString","value":null}`, `{"tag":null,"type":"TextString","value":"x"}`, `{"tag":1,"type":"TextString","value":"x"}`,
+		`{"tag":["Name"],"type":"TextString","value":"x"}`, `{"tag":{"a":1},"type":"TextString","value":"x"}`, `{"tag":true,"type":"TextString","value":"x"}`,
+		`{"tag":"","type":"TextString","value":"x"}`, `{"tag":"Bogus","type":"TextString","value":"x"}`, `{"tag":"name","type":"TextString","value":"x"}`,
+		`{"tag":"0x420053","type":"TextString","value":"x"}`, `{"tag":"0x42005g","type":"TextString","value":"x"}`, `{"tag":"0x","type":"TextString","value":"x"}`,
+		`{"tag":"0x-1","type":"TextString","value":"x"}`, `{"tag":"0x7FFFFFFF","type":"TextString","value":"x"}`, `{"tag":"0x80000000","type":"TextString","value":"x"}`, `{"tag":"0x000000","type":"Integer","value":1}`,
+		`{"tag":"Name","type":null,"value":"x"}`, `{"tag":"Name","type":5,"value":"x"}`, `{"tag":"Name","type":"","value":"x"}`, `{"tag":"Name","type":"Foo","value":"x"}`,
+		`{"tag":"Name","type":"textstring","value":"x"}`, `{"tag":"Name","type":["TextString"],"value":"x"}`, `{"tag":"Name","type":"Structure","value":"x"}`, `{"tag":"Name","type":"Structure","value":[]}`,
+		`{"tag":"Name","type":"TextString","value":"x","value":"y"}`, `{"tag":"BatchCount","tag":"Name","type":"TextString","value":"x"}`, `{"tag":"Name","type":"Integer","type":"TextString","value":"x"}`,
+		`{"Tag":"Name","Type":"TextString","Value":"x"}`, `{"tag":"Name","type":"TextString","value":"x","extra":[1,2,{"a":null}]}`, `{"tag":"Name","type":"TextString","value":"\ud800"}`,
+		`{"tag":"Name","type":"TextString","value":"\u0000\u001f😀\/"}`, "{\"tag\":\"Name\",\"type\":\"TextString\",\"value\":\"\xff\"}",
+		`{"tag":"Attribute","value":[]}`, `{"tag":"Attribute","value":[` + nm + `]}`, `{"tag":"Attribute","value":[` + nm + `,` + bc + `]}`, `{"tag":"Attribute","value":[` + bc + `,` + nm + `]}`,
+		`{"tag":"Attribute","type":"Structure","value":[` + nm + `]}`, `{"tag":"Attribute","value":` + nm + `}`, `{"tag":"Attribute","value":"x"}`, `{"tag":"Attribute","value":1}`, `{"tag":"Attribute","value":null}`,
+		`{"tag":"Attribute","value":{}}`, `{"tag":"Attribute"}`, `{"tag":"Attribute","value":[1]}`, `{"tag":"Attribute","value":[null]}`, `{"tag":"Attribute","value":["x"]}`, `{"tag":"Attribute","value":[[]]}`,
+		`{"tag":"Attribute","value":[[` + nm + `]]}`, `{"tag":"Attribute","value":[` + nm + `,1]}`, `{"tag":"Attribute","value":[1,` + nm + `]}`, `{"tag":"Attribute","value":[` + nm + `,{}]}`,
+		`{"tag":"Attribute","value":[` + nm + `,{"tag":"Bogus","type":"Integer","value":1},` + bc + `]}`, `{"tag":"Attribute","value":[{"tag":"Bogus","type":"Integer","value":1},` + nm + `]}`,
+		`{"tag":"Attribute","value":[` + nm + `,{"tag":"BatchCount","type":"Foo","value":7}]}`, `{"tag":"Attribute","value":[` + nm + `,{"tag":"BatchCount","type":"Integer","value":"seven"}]}`,
+		`{"tag":"TemplateAttribute","value":[{"tag":"Attribute","value":[` + nm + `]},` + bc + `]}`,
+		`{"tag":"TemplateAttribute","value":[{"tag":"Attribute","value":[{"tag":"Bogus","value":[` + nm + `]},` + nm + `]},` + bc + `]}`,
+		`{"tag":"TemplateAttribute","value":[{"tag":"Attribute","value":[` + nm + `,{"tag":"Bogus","value":[` + bc + `]},` + bc + `]},` + bc + `]}`,
+		`{"tag":"TemplateAttribute","value":[{"tag":"Attribute","value":[]},{"tag":"Attribute","value":[` + nm + `]}]}`,
+		`{"tag":"TemplateAttribute","value":[{"tag":"Attribute","value":[` + nm + `,{"tag":"Attribute","value":[` + bc + `]}]},` + bc + `]}`,
+		`{"tag":"TemplateAttribute","value":[{"tag":"Attribute","value":7},` + bc + `]}`, `{"tag":"TemplateAttribute","value":[7,` + bc + `]}`,
+	}
+	for _, j := range jsons {
+		for _, s := range scripts {
+			docs = append(docs, c04MkDoc("json", j, s, "shape"))
+		}
+	}
+	for _, j := range []string{`{"tag":"Attribute","value":[` + nm + `, {"tag":"0x42000D", "type":"Integer", "value":-7e0}]}`} {
+		for n := 0; n < len(j); n++ {
+			docs = append(docs, c04MkDoc("json", j[:n], nil, "truncated"))
+		}
+	}
+	return docs
+}
+
+// ------------------------------------------------------------------ part (b'): skipped content is inert
+
+// c04Prune keeps, in every structure, a random prefix of the children (the part a callback reads).
+func c04Prune(r *h.Rand, it *c04Item) *c04Item {
+	if it.K != "struct" {
+		return it
+	}
+	out := &c04Item{K: "struct", Tag: it.Tag}
+	n := len(it.Kids)
+	if n > 0 && r.Chance(1, 2) {
+		n = r.Intn(n + 1)
+	}
+	for _, k := range it.Kids[:n] {
+		out.Kids = append(out.Kids, c04Prune(r, k))
+	}
+	return out
+}
+
+// c04CaseSkip: the document of the full item, read with the script of the pruned item (every
+// Struct callback stops early and the reader skips the rest), must give exactly the pruned item;
+// and a child renamed to an unknown tag ends the generic ttlv.Value field loop there.
+func c04CaseSkip(c *h.Ctx, g *c04Gen, it *c04Item, idx int) {
+	seed := g.r.U64() >> 12
+	pr := c04Prune(h.NewRand(seed), it)
+	want, pan := c04Wire(pr)
+	if pan != nil {
+		return
+	}
+	for _, format := range []string{"xml", "json"} {
+		if !it.representable(format) {
+			continue
+		}
+		doc, pan := c04Encode(format, it)
+		if pan != nil {
+			continue
+		}
+		c.Eval("skip|"+format+"|"+it.coq()+"|"+pr.coq(), pr.size() < it.size())
+		c.Count("skip:" + format)
+		o := c04RereadDoc(format, doc, pr)
+		cj := map[string]any{"part": "skip", "format": format, "item": it, "rng": seed, "script": pr, "doc": string(c04Trunc(doc)), "observed": o.String()}
+		switch {
+		case o.Class == "panic":
+			c.Fail("C04/"+format+"/reader-panic:"+c04PanicClass(o.Msg), "typed read with early-stopping callbacks panicked: "+o.Msg, cj)
+		case o.Class == "err":
+			c.Fail("C04/"+format+"/unread-children-break-reading", "reading a prefix of each structure's children fails although the document is the library's own output: "+o.Msg, cj)
+		case !bytes.Equal(o.Bytes, want):
+			c.Fail("C04/"+format+"/unread-children-change-result", fmt.Sprintf("reading a prefix of each structure's children gives %x, expected %x", c04Trunc(o.Bytes), c04Trunc(want)), cj)
+		}
+	}
+}
+
+// c04AltOracle: for the alternative spellings whose meaning is fixed by the format (KMIP profiles:
+// hex and decimal spellings of numbers, date-time as hex seconds, interval in seconds), the value
+// decoded must be that number; a reader must never hand back a value its own writers cannot encode.
+func c04AltOracle(c *h.Ctx, d c04Doc, doc []byte, o c04Out, cj map[string]any) {
+	if d.Script == nil || d.Format != "json" || !strings.HasPrefix(d.Note, "alt") {
+		return
+	}
+	jt, err := c04ParseJSON(doc)
+	if err != nil || jt.K != 'o' {
+		return
+	}
+	var val *c04J
+	for i, k := range jt.Keys {
+		if k == "value" {
+			val = jt.Vals[i]
+		}
+	}
+	if val == nil {
+		return
+	}
+	item := func(k string, v int64) []byte {
+		b, _ := c04Wire(c04Int64(k, d.Script.Tag, v))
+		return b
+	}
+	switch d.Script.K {
+	case "date":
+		if val.K == 's' && strings.HasPrefix(val.S, "0x") {
+			n, ok := new(big.Int).SetString(val.S[2:], 16)
+			valid := ok && !strings.ContainsAny(val.S[2:], "+-_") && n.Sign() >= 0 && n.Cmp(big.NewInt(c04DateMax)) <= 0
+			if valid && (o.Class != "ok" || !bytes.Equal(o.Bytes, item("date", n.Int64()))) {
+				c.Fail("C04/json/datetime-hex-form-misread", fmt.Sprintf("date-time %q (hexadecimal seconds since the epoch) decodes to %s", val.S, o), cj)
+			}
+			if !valid && o.Class == "ok" {
+				c.Fail("C04/json/datetime-hex-form-out-of-range-accepted", fmt.Sprintf("date-time %q is accepted (%s) although it is not a hexadecimal instant of years 1..9999", val.S, o), cj)
+			}
+		}
+	case "intv":
+		var n *big.Int
+		ok := false
+		switch {
+		case val.K == '#':
+			n, ok = new(big.Int).SetString(val.S, 10)
+		case val.K == 's' && strings.HasPrefix(val.S, "0x") && !strings.ContainsAny(val.S[2:], "+-_"):
+			n, ok = new(big.Int).SetString(val.S[2:], 16)
+		case val.K == 's' && !strings.ContainsAny(val.S, "+-_"):
+			n, ok = new(big.Int).SetString(val.S, 10)
+		}
+		if !ok {
+			return
+		}
+		inRange := n.Sign() >= 0 && n.Cmp(big.NewInt(4294967295)) <= 0
+		if inRange && (o.Class != "ok" || !bytes.Equal(o.Bytes, item("intv", n.Int64()))) {
+			c.Fail("C04/json/interval-misread", fmt.Sprintf("interval %s (seconds) decodes to %s", val.S, o), cj)
+		}
+		if !inRange && o.Class == "ok" {
+			c.Fail("C04/json/interval-out-of-range-accepted", fmt.Sprintf("interval %s is accepted (%s) although it is not an unsigned 32-bit number of seconds", val.S, o), cj)
+		}
+	}
 }
